@@ -2,7 +2,10 @@
 (* TLC configurations of DbHistory: bounded exhaustive run (all clauses), and the emission run whose edges and
    per-state observations are replayed on a real armi Database. *)
 EXTENDS DbHistory
-McLabels == <<"", "EOL">>
+\* labels of the configurations, each in ASCII order ("every written snapshot and nothing else is listed" whatever the label is)
+McLabels  == <<"", "EOL">>
+McLabelsB == <<"", "-special">>
+McLabelsC == <<"", ".v2", "EOL">>
 Bound == TLCGet("level") <= MaxLevel
 View  == vars
 \* one line per explored edge (compact) and one line per distinct state (with every query result)
